@@ -407,6 +407,9 @@ class Evaluator:
         if k == 'Call':
             if callee_is(e, 'iter::repeat_n', 'sources::repeat_n::repeat_n'):
                 v = src(e['ch'][1])
+                if not hasattr(self, 'fill_nodes'):
+                    self.fill_nodes = {}
+                self.fill_nodes.setdefault(v, []).append(e['ch'][1])
                 for W1, n in self.ev_int(e['ch'][2], W):
                     if n is None:
                         yield W1, self.unknown(e, 'repeat_n count not linear')
